@@ -332,6 +332,12 @@ class Interp:
         return self.binop(node.op, a, b, node)
 
     def binop(self, op, a, b, node=None):
+        if isinstance(op, ast.Add) and (isinstance(a, PyList) or isinstance(b, PyList)) and not (isinstance(a, PyList) and isinstance(b, PyList)):
+            h = self.pack.models.get("concat")  # pack-specific model of list concatenation with a symbolic / custom list
+            if h is not None:
+                r = h(self, a, b)
+                if r is not None:
+                    return r
         if isinstance(op, ast.Add) and isinstance(a, (PyList, SList)) and isinstance(b, (PyList, SList)):
             return self.list_concat(a, b, node)
         if isinstance(op, ast.Mult) and isinstance(a, (str, bytes)) and not is_concrete(b):
